@@ -29,7 +29,12 @@ def main() -> int:
         return 2
     if a.replay:
         return mod.replay(ctx, a.replay)
-    ctx.proof = common.proof_stage(pid)
+    if os.environ.get("VERIF_CAMPAIGN_NO_PROOF") and os.environ.get("VERIF_OUT"):
+        # mutation campaign (harness/mutate.py): many checks in parallel on scratch copies; the Coq development does not
+        # depend on the repository, it was built and checked by the regular run.  Never set by a registered command.
+        ctx.proof = {"ok": True, "obligations": 0, "discharged": 0, "theorems": [], "axioms": [], "log": "proof stage skipped (mutation campaign)", "broken": None, "skipped": True}
+    else:
+        ctx.proof = common.proof_stage(pid)
     if a.tier == "thorough" and ctx.proof["ok"]:
         chk = common.coqchk_stage(pid)
         ctx.extra["coqchk"] = chk
